@@ -345,7 +345,9 @@ func DrawHistory(r *Rng, cfg HistConfig) (*Scenario, *histWorld) {
 			f := m.Pkgs[pi].Files[r.Intn(len(m.Pkgs[pi].Files))].Name
 			mid := w.drawRun(r, cfg)
 			mid.Args.All = true
-			ops = append(ops, Op{Kind: "touch", K: pi, Path: f, SameSize: true}, Op{Kind: "run", Run: mid}, Op{Kind: "touch", K: pi, Path: f, SameSize: true, MTime: "keep"})
+			again := *mid
+			again.Fresh = false
+			ops = append(ops, Op{Kind: "touch", K: pi, Path: f, SameSize: true}, Op{Kind: "run", Run: mid}, Op{Kind: "run", Run: &again}, Op{Kind: "touch", K: pi, Path: f, SameSize: true, MTime: "keep"})
 		case r.P(cfg.PProtect):
 			pi := r.Intn(len(m.Pkgs))
 			var follow *Op
